@@ -444,7 +444,9 @@ impl GitignoreBuilder {
             return Ok(self);
         }
         if !line.ends_with("\\ ") {
-            line = line.trim_right();
+            // Like git, only trailing spaces are insignificant. Other trailing
+            // white space (e.g., a tab) is part of the pattern.
+            line = line.trim_end_matches(' ');
         }
         if line.is_empty() {
             return Ok(self);
